@@ -4,8 +4,10 @@ CONSTANTS
   Horizon = 2
   AsFound_NaNExitsLoop = FALSE
   AsFound_DecorativeAfterAppend = TRUE
+  AsFound_NoSweepAtBigTolerance = FALSE
 INVARIANT TypeOK
 INVARIANT C02_SolvedOnlyIfConverged
+INVARIANT C02_SolvedOnlyAfterSweep
 INVARIANT C11_BoundedSweeps
 INVARIANT C11_NothingSolvedAtCap
 INVARIANT C11_EqualLengthsAfterFailure
